@@ -384,7 +384,7 @@ package jen
 //@   implements Code.render
 //@   unfold R null stable wfImp
 //@   loop 1 cut
-//@   loop 1 invariant collect: len(sorted) == $i && (forall j int :: { sorted[j] } (0 <= j && j < $i) ==> sorted[j] == $ks[j]) && ($i > 0 ==> sorted.arr > old(alloc)) && ($i == 0 ==> cap(sorted) == 0) && len(sorted) <= cap(sorted)
+//@   loop 1 invariant collect: len(sorted) == $i && (forall j int :: { sorted[j] } (0 <= j && j < $i) ==> sorted[j] == $ks[j]) && (sorted.arr > old(alloc) || cap(sorted) == 0) && len(sorted) <= cap(sorted)
 //@   loop 1 invariant same: $m == mapof(t.items) && $n > 0 && finiteStr($m) && written[w] == old(written[w]) && mapof(f.imports) == old(mapof(f.imports)) && regpre(f) && Fof(f) == old(Fof(f)) && nwrites[w] == old(nwrites[w]) && failed[w] == old(failed[w])
 //@   loop 2 cut
 //@   loop 2 invariant bound: $i <= len(sorted) && len(sorted) == len(t.items) && len(t.items) > 0 && finiteStr(mapof(t.items))
